@@ -87,3 +87,34 @@ def confirm(behaviour, module, cfg, workdir, timeout=300, dfs=False):
             f.write(ln if ln.endswith("\n") else ln + "\n")
     r = _run_chunk((module, cfg, p, len(behaviour), timeout, dfs))
     return (not r["accepted"]), r["matched"], r["violated"], r["out_tail"], r
+
+
+def _run_lines(args):
+    module, cfg, path, n, timeout = args
+    r = T.tlc(module, cfg, workers=1, timeout=timeout, env={"TRACE": path}, xmx="3g")
+    bad = [int(x) for x in re.findall(r'<<"BADLINE", (\d+)>>', r.out)]
+    complete = (r.rc == 0 and r.violated is None and r.error is None)
+    return dict(bad=bad, complete=complete, error=r.error or r.violated, tail=r.out[-2000:], distinct=r.distinct, generated=r.generated)
+
+
+def validate_lines(lines, module, cfg, workdir, chunk=300, timeout=900, jobs=None):
+    """Independent lines (stateless per-line oracle written so that a failing line prints BADLINE and the scan continues).
+    Returns dict(bad=[indices], broken=[...], distinct, generated)."""
+    jobs = jobs or NPROC
+    tasks, spans = [], []
+    for ci, i in enumerate(range(0, len(lines), chunk)):
+        p = os.path.join(workdir, "lines%05d.ndjson" % ci)
+        part = lines[i:i + chunk]
+        with open(p, "w") as f:
+            for ln in part:
+                f.write(ln if ln.endswith("\n") else ln + "\n")
+        tasks.append((module, cfg, p, len(part), timeout)); spans.append(i)
+    with cf.ThreadPoolExecutor(max_workers=jobs) as ex:
+        res = list(ex.map(_run_lines, tasks))
+    bad, broken, d, g = [], [], 0, 0
+    for base, r in zip(spans, res):
+        d += r["distinct"]; g += r["generated"]
+        if not r["complete"]:
+            broken.append(r); continue
+        bad += [base + k - 1 for k in r["bad"]]
+    return dict(bad=sorted(set(bad)), broken=broken, distinct=d, generated=g)
